@@ -59,7 +59,8 @@ known(
     "K2",
     "when the request exceeds the number of numerically distinct (FPS family) / linearly independent (CUR family) items, "
     "exhausted candidates are selected a second time (all remaining scores are zero or rounding noise and the argmax runs "
-    "over every item)",
+    "over every item); the same happens when every remaining STALE score is exactly zero (recompute_every > 1, mutually "
+    "orthogonal items)",
     "argmax over all items; no policy for exhausted candidates (the documented full= option is not implemented)",
     "needs a maintainer decision (stop early, raise, or pick at random as full= documents); masking alone does not help "
     "when every remaining score is exactly 0",
